@@ -401,6 +401,75 @@ fn aim_block(seed: u64, policy: &str) -> Script {
     live.script
 }
 
+/// One queue pins the oldest file with a small record while others fill and vacate several files;
+/// releasing the pin makes ONE GC pass unlink several files, each holding entries that supersede
+/// data of an older one.
+fn aim_pin(seed: u64, policy: &str) -> Script {
+    let mut rng = Rng(seed ^ 0xE5);
+    let queues = names(&mut rng, 4);
+    let mut live = Live::new(format!("aim-pin-{seed}"), policy, queues, seed);
+    let pin = 0usize;
+    for q in 0..4 {
+        live.push(Step::Create { q });
+    }
+    let payload = live.payload(8);
+    live.push(Step::Append { q: pin, pos: None, batch: vec![payload] });
+    let files = 2 + live.rng.below(2) as usize;
+    let mut used: Vec<usize> = Vec::new();
+    for round in 0..files {
+        // a different queue fills each file, so that the entry superseding its data exists in
+        // exactly one (the next) file
+        let bulk = 1 + round % 3;
+        used.push(bulk);
+        let start_file = live.log.as_ref().unwrap().verif_snapshot().writer_file;
+        for _ in 0..12 {
+            let len = 20_000 + live.rng.below(20_000) as usize;
+            let payload = live.payload(len);
+            live.push(Step::Append { q: bulk, pos: None, batch: vec![payload] });
+            if live.log.as_ref().unwrap().verif_snapshot().writer_file > start_file {
+                break;
+            }
+        }
+        match live.rng.below(3) {
+            0 => {
+                let last = live.last_position(bulk).unwrap_or(0);
+                live.push(Step::Truncate { q: bulk, p: last });
+            }
+            1 => {
+                live.push(Step::Delete { q: bulk });
+                live.push(Step::Create { q: bulk });
+            }
+            _ => {
+                let last = live.last_position(bulk).unwrap_or(0);
+                live.push(Step::Truncate { q: bulk, p: last.saturating_sub(1) });
+                live.push(Step::Truncate { q: bulk, p: last + 3 });
+            }
+        }
+    }
+    // the vacated queues become non-empty again (so that no GC position entry speaks for them)
+    for bulk in used {
+        if live.rng.chance(75) {
+            let payload = live.payload(11);
+            live.push(Step::Append { q: bulk, pos: None, batch: vec![payload] });
+        }
+    }
+    // release the pin: everything old goes in one pass
+    let payload = live.payload(6);
+    live.push(Step::Append { q: pin, pos: None, batch: vec![payload] });
+    let last = live.last_position(pin).unwrap_or(0);
+    if live.rng.chance(50) {
+        live.push(Step::Truncate { q: pin, p: last.saturating_sub(1) });
+    } else {
+        live.push(Step::Delete { q: pin });
+    }
+    if live.rng.chance(50) {
+        live.push(Step::Restart);
+    }
+    let payload = live.payload(7);
+    live.push(Step::Append { q: 1, pos: None, batch: vec![payload] });
+    live.script
+}
+
 pub fn is_aimed(profile: &str) -> bool {
     profile.starts_with("aim-")
 }
@@ -412,6 +481,7 @@ pub fn generate(profile: &str, seed: u64, policy: &str) -> Script {
         "aim-roll" => aim_roll(seed, policy),
         "aim-batch" => aim_batch(seed, policy),
         "aim-block" => aim_block(seed, policy),
+        "aim-pin" => aim_pin(seed, policy),
         other => panic!("unknown aimed profile {other}"),
     };
     mrecordlog::verif::take_events();
